@@ -1,4 +1,4 @@
-import os, sys, re, random
+import os, sys, json, re, random
 sys.path.insert(0, os.path.join(os.path.dirname(os.path.abspath(__file__)), '..', 'lib'))
 import vlib, flow, gen_trans
 gen_trans.register('kfmt_ring.json')   # Go -> Gallina translation of ringBuffer.Write/Read (Gen/Trans_kfmt_ring.v, used by Kfmt/RingTrans.v)
@@ -387,7 +387,7 @@ class C16(flow.Spec):
                 continue
             seen.add(sig)
             res.append((sig, msg, dict(kind='ring-history', ring_case=['%x' % v for v in cases[i]] if i < len(cases) else None,
-                                       replay='VERIF_CASES=<file with "0 <case>"> go test -tags verif -run TestVerifC16Ring ./kfmt (with the overlay of checks/C16.py)')))
+                                       replay='bin/check C16 --replay <this file>')))
         try:
             vlib.run_model('C16ring', cpath, mpath)
             mobs, _, _ = vlib.parse_out(mpath)
@@ -402,5 +402,40 @@ class C16(flow.Spec):
         return res
 
 
+def ring_replay(obj):
+    """bin/check C16 --replay <file> for a recorded ring-buffer history (key ring_case)"""
+    nums = [int(x, 16) for x in obj['ring_case']]
+    wd = vlib.ensure_dir(os.path.join(vlib.WORK, 'C16', 'replay'))
+    vlib.regen()
+    vlib.coq_build(['theories/Kfmt/Ring.vo'])
+    cpath, gpath, mpath = (os.path.join(wd, n) for n in ('cases_ring.txt', 'go_ring.out', 'model_ring.out'))
+    vlib.write_cases(cpath, [nums])
+    rc, out, _ = vlib.run_go(wd, 'kernel', 'kfmt', [os.path.join(HK, 'zz_verif_c16ring_test.go')], 'TestVerifC16Ring$',
+                             cases_path=cpath, out_path=gpath, timeout=300)
+    gobs, mons, _ = vlib.parse_out(gpath)
+    print('case       :', ' '.join('%x' % v for v in nums)[:600])
+    print('impl obs   :', ' '.join(gobs.get(0, ['<none>']))[:400])
+    for (i, s, m) in mons:
+        print('impl MONITOR-FAIL:', s, m)
+    if rc != 0:
+        print(out[-2000:])
+    try:
+        vlib.run_model('C16ring', cpath, mpath)
+        mobs, _, _ = vlib.parse_out(mpath)
+        print('model obs  :', ' '.join(mobs.get(0, ['<none>']))[:400])
+        print('model and implementation', 'AGREE' if mobs.get(0) == gobs.get(0) else 'DIFFER')
+    except Exception as ex:
+        print('model failed:', str(ex)[-400:])
+    return 1 if mons else 0
+
+
 if __name__ == '__main__':
+    if '--replay' in sys.argv:
+        try:
+            o = json.load(open(sys.argv[sys.argv.index('--replay') + 1]))
+            o = o if 'ring_case' in o else (o.get('detail') or {})
+        except Exception:
+            o = {}
+        if o.get('ring_case'):
+            sys.exit(ring_replay(o))
     sys.exit(flow.standard_check(C16(), sys.argv[1:]))
